@@ -233,6 +233,16 @@ func (x *Exec) specForm(name string, e *ast.CallExpr, st *State, sp *SpecCtx) (V
 			return Value{T: floatT, Term: App("uf_"+fn, RealS, ts...)}, true
 		}
 		return Value{T: boolT, Term: App("uf_"+fn, BoolS, ts...)}, true
+	case "store":
+		a := x.eval(e.Args[0], st, sp)
+		i := x.eval(e.Args[1], st, sp)
+		v := x.eval(e.Args[2], st, sp)
+		if a.Term == nil || a.Term.S.K != SArr || i.Term == nil || v.Term == nil {
+			x.errorf("store(array, index, value)")
+			return Value{Term: False}, true
+		}
+		a.Term = Store(a.Term, i.Term, v.Term)
+		return a, true
 	case "floor":
 		return Value{T: intT, Term: ToIntFloor(ToReal(num(0)))}, true
 	case "ceil":
@@ -296,17 +306,44 @@ func (x *Exec) calleeText(e *ast.CallExpr) string {
 }
 
 func (x *Exec) ghostAtCall(e *ast.CallExpr, st *State) {
-	if x.uc == nil || len(x.uc.AtCalls) == 0 || x.inlineDepth > 0 {
+	if x.uc == nil || len(x.uc.AtCalls) == 0 || x.inlineDepth > 0 || x.specDepth > 0 {
 		return
 	}
 	name := x.calleeText(e)
-	x.ghostCalls[name]++
-	ord := x.ghostCalls[name]
+	ord := x.callOrd[e]
 	for _, ac := range x.uc.AtCalls {
-		if ac.Callee != name || (ac.Ordinal != 0 && ac.Ordinal != ord) {
+		if ac.After || ac.Callee != name || (ac.Ordinal != 0 && ac.Ordinal != ord) {
 			continue
 		}
-		x.runGhost(ac, e, st)
+		x.runGhost(ac, e, st, nil)
+	}
+}
+
+// ghostAfterCall runs the "after call" ghost updates with the call's results bound to res0, res1, ...
+func (x *Exec) ghostAfterCall(e *ast.CallExpr, st *State, res Value) {
+	if x.uc == nil || len(x.uc.AtCalls) == 0 || x.inlineDepth > 0 || x.specDepth > 0 {
+		return
+	}
+	name := x.calleeText(e)
+	any := false
+	for _, ac := range x.uc.AtCalls {
+		if ac.After && ac.Callee == name {
+			any = true
+		}
+	}
+	if !any {
+		return
+	}
+	ord := x.callOrd[e]
+	results := res.Tuple
+	if results == nil {
+		results = []Value{res}
+	}
+	for _, ac := range x.uc.AtCalls {
+		if !ac.After || ac.Callee != name || (ac.Ordinal != 0 && ac.Ordinal != ord) {
+			continue
+		}
+		x.runGhost(ac, e, st, results)
 	}
 }
 
@@ -317,12 +354,12 @@ func (x *Exec) ghostSend(s *ast.SendStmt, st *State) {
 	name := "send:" + types.ExprString(s.Chan)
 	for _, ac := range x.uc.AtCalls {
 		if ac.Callee == name {
-			x.runGhost(ac, nil, st)
+			x.runGhost(ac, nil, st, nil)
 		}
 	}
 }
 
-func (x *Exec) runGhost(ac *AtCall, e *ast.CallExpr, st *State) {
+func (x *Exec) runGhost(ac *AtCall, e *ast.CallExpr, st *State, results []Value) {
 	loc := x.ghostLoc(ac.LHS)
 	if loc == nil {
 		x.errorf("ghost variable %s not declared", ac.LHS)
@@ -337,6 +374,9 @@ func (x *Exec) runGhost(ac *AtCall, e *ast.CallExpr, st *State) {
 		for i, a := range e.Args {
 			sp.bound["arg"+strconv.Itoa(i)] = x.eval(a, st, nil)
 		}
+	}
+	for i, r := range results {
+		sp.bound["res"+strconv.Itoa(i)] = r
 	}
 	x.specDepth++
 	v := x.eval(ac.RHS, st, sp)
